@@ -220,12 +220,13 @@ func mk(op, s string, v ssa.Value, args ...*Term) *Term {
 
 // TB builds terms for the values of one function.
 type TB struct {
-	p      *Program
-	fn     *ssa.Function
-	parent *TB                        // builder of the enclosing function (for closures)
-	bind   map[*ssa.FreeVar]ssa.Value // free variable -> value in parent
-	memo   map[ssa.Value]*Term
-	active map[ssa.Value]bool
+	phiDepth int // recursion guard of FactsAtRaw's merge refinement
+	p        *Program
+	fn       *ssa.Function
+	parent   *TB                        // builder of the enclosing function (for closures)
+	bind     map[*ssa.FreeVar]ssa.Value // free variable -> value in parent
+	memo     map[ssa.Value]*Term
+	active   map[ssa.Value]bool
 	// activeDepth and cycleTo implement context-free memoisation: a term built while it
 	// refers to a value still being described further up is not remembered
 	activeDepth map[ssa.Value]int
